@@ -190,6 +190,16 @@ func fixStdlib(interp *Interpreter) {
 		c := flag.NewFlagSet(prog, flag.PanicOnError)
 		c.SetOutput(stderr)
 		p["CommandLine"] = reflect.ValueOf(&c).Elem()
+
+		if !interp.unrestricted {
+			// In restricted mode, a flag set panics instead of exiting on a parse error.
+			p["NewFlagSet"] = reflect.ValueOf(func(name string, h flag.ErrorHandling) *flag.FlagSet {
+				if h == flag.ExitOnError {
+					h = flag.PanicOnError
+				}
+				return flag.NewFlagSet(name, h)
+			})
+		}
 	}
 
 	if p = interp.binPkg["log"]; p != nil {
